@@ -100,7 +100,7 @@ ADD_TEXT = {
  'C06': 'TcpConnection and TcpServer: the buffered descriptor / the connection object is disabled, detached and destroyed only by a posted task, exactly once; a peer close is reported exactly once; sends after the close are refused.',
  'C07': 'hasRead / hasWritten are proved for ANY size (no wrap of index + size).',
  'C09': 'Sink (filter, handleLog, cached timestamp string, enable/disable order), the AsyncSink back-end re-framing loop and the record formatting (every append inside its source object) are under contract as well.',
- 'C12': 'Server::Impl::commitRespond (order, once, nothing after the closing response) and Server::Impl::onTcpReceived (one context per request, the closing request is the last one, the read side stays open while a response is owed, clean drop on parse failure); the parser contract also states that a declared body is part of what is consumed.',
+ 'C12': 'Server::Impl::commitRespond (order, once, nothing after the closing response) and Server::Impl::onTcpReceived (one context per request, the closing request is the last one, the read side stays open while a response is owed, clean drop on parse failure), Server::Impl::onTcpSendCompleted (closed exactly when the response to the closing request has gone out); the parser contract also states that a declared body is part of what is consumed.',
  'C13': 'Terminal::Impl::onRecvString (scanner restarted per segment and per key, every completed key dispatched to exactly its editor action once). Telnetd::Impl::onTcpReceived framing loop: bounds of every byte looked at, complete-negotiation-or-wait, progress (bounded domain: 64 pending bytes).',
  'C14': 'Rpc::request / onRecvRespond / onRequestTimeout: one fresh id per request for callback, deadline and message; an outstanding id is completed exactly once, unknown / duplicate / late ids are ignored. Proto::onRecvJson: no exception for any JSON content, at most one callback per message, recursion into batch elements bounded by one level.',
  'C15': 'UdpSocket::onSocketEvent hands the receive callback only bytes that recvfrom stored; Deserializer::checkSize / setEndian are under contract.',
@@ -115,7 +115,7 @@ FIX_NOTE = {
  'C05': ('Interleavings, liveness and WorkThread are not decided', 'Interleavings and liveness are not decided'),
  'C06': ('Read path and the TCP classes are not covered', 'The read path (attempted; the harness is beyond the installed solvers, DESIGN I.8) and acceptor/connector/client are not covered'),
  'C09': ('Sink level filter, back-end re-framing, file roll-over and interleavings are not decided.', 'The produced text, file roll-over and interleavings are not decided.'),
- 'C12': ('and the rest of the server pipeline (onTcpReceived, connection close) are not decided', 'and onTcpSendCompleted / the handler chain are not decided; at most 10^9 bytes pending per receive call'),
+ 'C12': ('and the rest of the server pipeline (onTcpReceived, connection close) are not decided', 'and the handler chain is not decided; at most 10^9 bytes pending per receive call'),
  'C13': ('telnet negotiation (telnetd.cpp), ', 'content-level telnet framing, '),
  'C14': ('Rpc request bookkeeping (unordered_map), PacketProto, Proto::onRecvJson field extraction and encoder/decoder value round trip are not covered.', 'The Rpc service side, re-entrant completion callbacks, PacketProto, the JSON values extracted by Proto::onRecvJson and the encoder/decoder value round trip are not covered.'),
  'C15': ('DnsRequest::onUdpRecv / request / cancel bookkeeping (std::map, callbacks) is not under contract', 'DnsRequest::onUdpRecv / request / cancel bookkeeping (std::map, callbacks) is not under contract (onUdpRecv was attempted; the harness is beyond the installed solvers, DESIGN I.8)'),
